@@ -18,7 +18,7 @@
    Strict = TRUE these are not excepted and TLC must report them).                       *)
 EXTENDS Cdef, SequencesExt
 
-CONSTANT Variants     \* subset of {"faithful", "strict", "susort", "nolen", "dollar", "negmask"}
+CONSTANT Variants     \* subset of {"faithful", "strict", "susort", "nolen", "dollar", "negmask", "filetwice"}
 VARIABLE variant      \* chosen at Init, never changes.  "faithful": the transcription; "strict": the
                       \* transcription, but no documented divergence class is excepted (TLC must
                       \* report them); the others are deliberately broken transcriptions (non-vacuity)
@@ -176,8 +176,10 @@ SUEntry(ev, idx, t) ==
 
 SortByName(seq) == SortSeq(seq, LAMBDA a, b : StrLt(a.name, b.name))
 
-\* typedefs that name FILE itself: each makes _generate_cpy_typedef_ctx emit one struct_unions
-\* entry for _IO_FILE (origin == "unknown_type")
+\* typedefs that name FILE itself: the first one makes _generate_cpy_typedef_ctx emit the struct_unions
+\* entry for _IO_FILE (origin == "unknown_type"; later ones find it in _seen_struct_unions).
+\* Variant "filetwice" is the code before that test was added: one entry per typedef, and the
+\* consistency assert of collect_step_tables fails.
 FileTypedefs(ev) == {n \in DOMAIN ev.td : ev.td[n] = File}
 
 Encode(ev) ==
@@ -205,10 +207,10 @@ Encode(ev) ==
                             : i \in DOMAIN ev.en[g].names} : g \in DOMAIN ev.en})
       structs ==
         SetToSeq({SUEntry(ev, idx, t) : t \in DOMAIN ev.su})
-        \* one entry per typedef of FILE; or, if FILE is used but never typedef'ed, the one
-        \* entry made by _add_missing_struct_unions
+        \* one entry for _IO_FILE: made for the first typedef of FILE or, if FILE is used but never
+        \* typedef'ed, by _add_missing_struct_unions
         \o (IF fileUsed
-            THEN [i \in 1..(IF FileTypedefs(ev) = {} THEN 1 ELSE Cardinality(FileTypedefs(ev))) |->
+            THEN [i \in 1..(IF variant = "filetwice" /\ FileTypedefs(ev) # {} THEN Cardinality(FileTypedefs(ev)) ELSE 1) |->
                      [name |-> "_IO_FILE", tidx |-> idx[File], flags |-> F_OPAQUE, fields |-> <<>>]]
             ELSE <<>>)
       enums ==
@@ -411,7 +413,7 @@ EnBad(ev, M, W, g) ==
 OolBad(ev, strict) ==
   LET M == Encode(ev)
       W == Words(M)
-  IN IF ~M.ok THEN (IF strict \/ ~TwoFileTypedefs(ev) THEN {<<"emit">>} ELSE {})
+  IN IF ~M.ok THEN {<<"emit">>}
      ELSE {<<"td", n>> : n \in {n \in DOMAIN ev.td : (strict \/ ~MentionsForced(ev, ev.td[n]))
                                                      /\ OolTd(M, W, n) # Norm(ev, ev.td[n])}}
           \cup {<<"su", KeyStr(k)>> : k \in {k \in DOMAIN ev.su : SUBad(ev, M, W, k, strict)}}
